@@ -80,39 +80,70 @@ def inst_release(cx, iid):
     with cx.instance(iid, "T2 PAIR + T3", "clear() subtracts the recorded size in both occupied arms and re-opens the slot; only advance_window clears", floor=3) as inst:
         b = R.body(AW + "clear")
         fa = cx.fa(b)
+        # the amount subtracted, case-split over the arm it is computed in (direct `alloc -= x` per arm, or a
+        # `let freed = match … {…}` followed by one subtraction)
+        from rules import case_values
+        from mirlib import alt_satisfies
         subs = {}
+        writes = []
         for l, node, ps in b.field_writes(r"arg1\.alloc"):
-            v = show(b.rvalue_expr(node["rv"])) if node["k"] == "assign" else show(b.call_expr(node))
-            for arm in ("Closed", "Active"):
-                if dnf_holds(fa.at(l), [[r"is\(arg1\.window\[arg2\],%s\)" % arm]])[0]:
-                    subs[arm] = v
-            inst.site(b, l, "alloc -= " + v[:70])
-        # SubAssign through a reference shows as a call usize::sub_assign
+            writes.append((l, b.rvalue_expr(node["rv"]) if node["k"] == "assign" else b.call_expr(node)))
         for l, t in b.calls("usize::sub_assign"):
-            v = show(b.call_expr(t))
-            for arm in ("Closed", "Active"):
-                if dnf_holds(fa.at(l), [[r"is\(arg1\.window\[arg2\],%s\)" % arm]])[0]:
-                    subs[arm] = v
-            inst.site(b, l, v[:80])
-        if not re.search(r"arg1\.window\[arg2\]@Closed\.0", subs.get("Closed", "")):
-            inst.violation(b.path, "Closed arm release", "clearing a Closed slot does not subtract its recorded size (%s)" % subs.get("Closed"))
-        if not re.search(r"arg1\.window\[arg2\]@Active\.0\.alloc_size", subs.get("Active", "")):
-            inst.violation(b.path, "Active arm release", "clearing an Active slot does not subtract its recorded size (%s)" % subs.get("Active"))
+            writes.append((l, b.call_expr(t)))
+        for l, e in writes:
+            inst.site(b, l, "alloc -= " + show(e)[:70])
+            here = fa.at(l) or [frozenset()]
+            for alts, ce in case_values(cx, b, e):
+                for arm in ("Closed", "Active", "Open"):
+                    lit = r"is\(arg1\.window\[arg2\],%s\)" % arm
+                    both = [frozenset(a) | frozenset(h) for a in alts for h in here]
+                    if both and all(alt_satisfies(a, [lit]) for a in both):
+                        subs.setdefault(arm, []).append(show(ce))
+        for arm, want in (("Closed", r"arg1\.window\[arg2\]@Closed\.0"), ("Active", r"arg1\.window\[arg2\]@Active\.0\.alloc_size")):
+            got = subs.get(arm, [])
+            if len(got) != 1 or not re.fullmatch(r"(sub\(arg1\.alloc,%s\)|usize::sub_assign\(arg1\.alloc,%s\))" % (want, want), got[0]):
+                inst.violation(b.path, arm + " arm release", "clearing %s slot does not subtract its recorded size exactly once (%s)" % ("a Closed" if arm == "Closed" else "an Active", got))
+        for v in subs.get("Open", []):
+            if not re.fullmatch(r"(sub\(arg1\.alloc,0\)|usize::sub_assign\(arg1\.alloc,0\))", v):
+                inst.violation(b.path, "Open arm release", "clearing an Open slot changes the counter (%s)" % v)
         opens = [l for l, node, ps in b.field_writes(r"arg1\.window\[arg2\]") if node["k"] == "assign" and show(b.rvalue_expr(node["rv"])) == "WindowEntry::Open{}"]
         cx.followed_by(inst, b, [(Loc(0, -1), "entry of clear()")], opens, "slot not re-opened", "window[idx] = Open")
         callers = [ob.path for ob in R.all_bodies() if call_sites(ob, AW + "clear")]
         inst.site(b, None, "callers of clear: %s" % [c.split("::")[-1] for c in callers])
         if callers != ["half_connection::packet_receiver::PacketReceiver::advance_window"]:
             inst.violation(b.path, "callers of clear", "AssemblyWindow::clear is called from %s; only the window advance may release slots" % callers)
-        # recorded size = size charged: Closed(alloc_size) / ActiveEntry::new(alloc_size, ..)
+        # recorded size = size charged: every value stored into a slot (direct write or mem::replace) is one of
+        #   Closed(0)                        only on the refusing edge (nothing was charged)
+        #   Closed(packet_alloc_size(dg))    Open arm, single fragment: the size just charged
+        #   Active(ActiveEntry::new(packet_alloc_size(dg), …))   Open arm, first fragment: the size just charged
+        #   Closed(window[idx]@Active.alloc_size)                Active arm, packet complete: the charge carried over
         ta = R.body(AW + "try_add")
+        tfa = cx.fa(ta, kill_fields=False)
+        stores = []
         for l, node, ps in ta.field_writes(r"arg1\.window\[arg2\]"):
-            v = show(ta.rvalue_expr(node["rv"])) if node["k"] == "assign" else ""
-            if v.startswith("WindowEntry::Closed{") and v not in ("WindowEntry::Closed{0}", "WindowEntry::Closed{assembly_window::packet_alloc_size(arg3)}") and "alloc_size" not in v:
-                inst.violation(ta.path, "recorded size", "a Closed entry records `%s`, not the size that was charged" % v, at=ta.span_at(l))
-        for l, t in ta.calls("ActiveEntry::new"):
-            if show(ta.operand_expr(t["args"][0])) != "assembly_window::packet_alloc_size(arg3)":
-                inst.violation(ta.path, "recorded size (Active)", "an Active entry records a size other than the one charged", at=ta.span_at(l))
+            if node["k"] == "assign":
+                stores.append((l, show(ta.rvalue_expr(node["rv"]))))
+        for l, t in ta.calls("re:mem::(replace|swap)$"):
+            e = ta.call_expr(t)
+            if show(e[2][0]) == "arg1.window[arg2]":
+                stores.append((l, show(e[2][1])))
+        CH = r"assembly_window::packet_alloc_size\(arg3\)"
+        for l, v in stores:
+            inst.site(ta, l, "slot <- " + v[:80])
+            if v == "WindowEntry::Closed{0}":
+                g, _ = dnf_holds(tfa.at(l), [[r"lt\(arg1\.max_alloc,add\(.*\)\)"]])
+                if not g:
+                    inst.violation(ta.path, "recorded size", "a slot is closed with recorded size 0 although an allocation was charged for it: the charge is never released", at=ta.span_at(l))
+            elif re.fullmatch(r"WindowEntry::Closed\{%s\}" % CH, v) or re.fullmatch(r"WindowEntry::Active\{ActiveEntry::new\(%s,.*\)\}" % CH, v):
+                g, _ = dnf_holds(tfa.at(l), [[r"is\(arg1\.window\[arg2\],Open\)"]])
+                if not g:
+                    inst.violation(ta.path, "recorded size", "a fresh charge is recorded over a slot that is not Open", at=ta.span_at(l))
+            elif v == "WindowEntry::Closed{arg1.window[arg2]@Active.0.alloc_size}":
+                pass
+            elif v.startswith("WindowEntry::Open"):
+                inst.violation(ta.path, "slot re-opened in try_add", "try_add re-opens a slot (only the window advance may)", at=ta.span_at(l))
+            else:
+                inst.violation(ta.path, "recorded size", "a slot records `%s`, not the size that was charged" % v[:120], at=ta.span_at(l))
 
 
 def inst_sibling_accounting(cx, iid):
@@ -306,6 +337,8 @@ def run(cx):
     # when the window passes it but stays held in the delivery entries: the datagram validator's clauses
     from props.C03 import check_validators
     check_validators(cx, "C06.h")
+    from props.shared import resync_walk
+    resync_walk(cx, "C06.i")
 
 
 SELFTEST = [
